@@ -96,6 +96,7 @@ def conc_scenarios():
         sc.append("bqueue")
     if _opt("execgen_set", "set_cmd"):
         sc.append("set")
+    sc.append("bigread")
     return sc
 
 
